@@ -356,11 +356,11 @@ def run(ctx):
         ctx.error("MeaningGen: " + rg.error)
     exprs = rg.emitted
     ctx.cov["expressions_from_tlc"] = len(exprs)
-    open(os.path.join(d, "ModsHaz.cfg"), "w").write("SPECIFICATION Spec\nCONSTANTS\n  Depth = 1\n  ChainDepth = 4\n  SkipAllVClose = FALSE\n  Emit = TRUE\n"
+    open(os.path.join(d, "ModsHaz.cfg"), "w").write("SPECIFICATION Spec\nCONSTANTS\n  Depth = 1\n  ChainDepth = 4\n  SkipAllVClose = FALSE\n  IfGuard = TRUE\n  Emit = TRUE\n"
                                                     "INVARIANTS EmitHazard\nCHECK_DEADLOCK FALSE\n")
     rh = tlc_retry("Mods", "ModsHaz", cwd=d, workers=1, timeout=1500, xmx="10g")
     ctx.add_tlc(rh)
-    open(os.path.join(d, "ModsGen.cfg"), "w").write("SPECIFICATION Spec\nCONSTANTS\n  Depth = 2\n  ChainDepth = 2\n  SkipAllVClose = TRUE\n  Emit = TRUE\n"
+    open(os.path.join(d, "ModsGen.cfg"), "w").write("SPECIFICATION Spec\nCONSTANTS\n  Depth = 2\n  ChainDepth = 2\n  SkipAllVClose = TRUE\n  IfGuard = TRUE\n  Emit = TRUE\n"
                                                     "INVARIANTS EmitTree\nCHECK_DEADLOCK FALSE\n")
     rt_ = tlc_retry("Mods", "ModsGen", cwd=d, workers=1, timeout=1500, xmx="10g")
     ctx.add_tlc(rt_)
